@@ -320,6 +320,9 @@ class RandInfoBuilder(ModelVisitor,RandIF):
                     for c in self._active_randset.soft_constraints():
                         ex_randset.add_constraint(c)
 
+                    for f,d_l in self._active_randset.dist_field_m.items():
+                        ex_randset.dist_field_m.setdefault(f, []).extend(d_l)
+
                     # Remove the previous randset
                     idx = self._randset_m[self._active_randset]
                     self._randset_m.pop(self._active_randset)
@@ -410,6 +413,10 @@ class RandInfoBuilder(ModelVisitor,RandIF):
                     
                 for c in self._active_randset.soft_constraints():
                     ex_randset.add_constraint(c)
+
+                # The dist constraints registered for its fields move along
+                for f,d_l in self._active_randset.dist_field_m.items():
+                    ex_randset.dist_field_m.setdefault(f, []).extend(d_l)
 
                 # Remove the previous randset
                 idx = self._randset_m[self._active_randset]
